@@ -41,6 +41,13 @@ def main():
     m = os.path.join(wt, "MUTANT", n)
     meta = json.load(open(os.path.join(m, "meta.json")))
     res = {"property": prop, "mutant": n, "worktree": wt}
+    prev = {}
+    if os.path.exists(os.path.join(m, "eval.json")):
+        prev = json.load(open(os.path.join(m, "eval.json")))
+    if skip_suite:
+        for k in ("suite_summary", "suite_failed", "suite_passes_with_patch", "suite_wall_s"):
+            if k in prev:
+                res[k] = prev[k]
     # clean tracked files
     sh("git checkout -- . ", wt)
     demo_files = meta.get("demo_files", {})
@@ -103,7 +110,7 @@ def main():
             os.remove(f)
         except OSError:
             pass
-    res["confirmed"] = bool(res.get("patch_applies") and res.get("demo_without_patch_rc") == 0 and res.get("demo_with_patch_rc", 0) != 0 and (skip_suite or res.get("suite_passes_with_patch")))
+    res["confirmed"] = bool(res.get("patch_applies") and res.get("demo_without_patch_rc") == 0 and res.get("demo_with_patch_rc", 0) != 0 and res.get("suite_passes_with_patch"))
     res["detected_by"] = [c for c, r in res.get("checks", {}).items() if r["rc"] == 1]
     json.dump(res, open(os.path.join(m, "eval.json"), "w"), indent=1)
     print(json.dumps({k: v for k, v in res.items() if not k.endswith("_tail")}, indent=1))
